@@ -45,6 +45,8 @@ func runSelParseStream(c *ctx) error {
 	allStrings(".[]\"?:-01a\\", n, func(s string) { emit("."+s, "parse"); probe("."+s, "parse") })
 	for _, s := range []string{"", "a", "[0]", "?", "\"", "a.b", "[]", ".é", ".ß?", ".日本", ".a\xff", ".\xc3", "._x$-1", ".a b", ".9a",
 		`.["é"]`, `.["a.b"]`, `.["a[0]"]`, `.["a\"b"]`, `.["a\\"]`, `.["a:b"]`, `.[" "]`, ".[00]", ".[-0]", ".[007]?", ".[+1]",
+		// bounds are DECIMAL: leading zeros, and the prefixes and separators other number syntaxes allow
+		".[010]", ".[08]", ".[09:]", ".[010:]", ".[:010]", ".[-010]", ".[08:09]", ".[0x10]", ".[0X1]", ".[0b11]", ".[0o17]", ".[1_0]", ".[0_1]", ".[1e1]", ".[ 1]", ".[1 ]", ".[0x1:]", ".[:0b1]",
 		".[9007199254740991]", ".[9007199254740992]", ".[-9007199254740991]", ".[-9007199254740992]", ".[99999999999999999999]",
 		".[1:9007199254740992]", ".[-9007199254740992:]", ".[:99999999999999999999]", ".[1:2:3]", ".[::]", ".[-:1]", ".[1:-]", ".[-:-]",
 		".a???", ".??", ".?.?", ".a.?.b", ".a..b", "...", ".a...b", ".[0].", ".[0]..", ".a.[0]", `.foo["bar`, `.foo"`, `.foo["]`, `.["]"]`, `."a"`, `.a"b"c`,
